@@ -540,9 +540,14 @@ package actor
 //@   modifies heap except H$actor.Inbox$rb H$actor.Inbox$scheduler, stoppedByMe
 //@   emits ProcInvoke(self, msgs)
 
+// Scheduling a function hands it the worker token that the caller has just
+// minted (handoff); a call without a freshly minted token would start a second
+// worker.
 //@ func (Scheduler).Schedule(fn)
 //@   abstract
-//@   modifies
+//@   requires[C02.schedule.only-with-a-freshly-minted-token] handoff
+//@   modifies handoff
+//@   ensures !handoff
 
 //@ func (Scheduler).Throughput()
 //@   abstract
@@ -578,10 +583,12 @@ package actor
 //@ ghost var startPerm Bool
 //@ ghost var stoppedByMe Bool
 //@ ghost var published Bool
+//@ ghost var handoff Bool
 
 //@ protocol Inbox(in)
 //@   shared in.procStatus, in.rb.len, in.proc, tokens, wakers
 //@   steps call CompareAndSwapInt32, call SwapInt32, call StoreInt32, call LoadInt32, call Push, call PopN, call Len, store proc
+//@   threadlocal tok, owes, starter, startPerm, stoppedByMe, published, handoff
 //@   inv[C02.inv.at-most-one-worker] tokens == 0 || tokens == 1
 //@   inv[C02.inv.running-has-worker] in.procStatus == running ==> tokens == 1
 //@   inv[C02.inv.idle-or-starting-has-no-worker] in.procStatus == idle || in.procStatus == starting ==> tokens == 0
@@ -597,20 +604,18 @@ package actor
 
 //@ func (*Inbox).schedule()
 //@   props C02 C03 C01
-//@   requires inboxOK(in) && owes
-//@   modifies in.procStatus, tokens, wakers, owes
-//@   ghost at entry: handoff = false
+//@   requires inboxOK(in) && owes && !handoff
+//@   modifies in.procStatus, tokens, wakers, owes, handoff
 //@   ghost at call CompareAndSwapInt32#1 on success: tokens = tokens + 1; handoff = true
 //@   ghost at call CompareAndSwapInt32#1: wakers = wakers - 1; owes = false
-//@   ghost at call Schedule#1 before: assert[C02.schedule.hands-the-new-token-to-process] handoff && arg0 == boundmethod(in, "process")
-//@   ghost at call Schedule#1: handoff = false
-//@   ghost at return#1: assert[C02.schedule.no-token-leak] !handoff
+//@   ghost at call Schedule#1 before: assert[C02.schedule.hands-the-new-token-to-process] arg0 == boundmethod(in, "process")
+//@   ensures[C02.schedule.no-token-leak] !handoff
 //@   ensures[C03.exit.no-debt] !owes
 
 //@ func (*Inbox).Send(msg)
 //@   props C01 C02 C03
-//@   requires inboxOK(in) && !owes
-//@   modifies in.procStatus, in.rb.content, in.rb.len, in.rb.content.*, elements(in.rb.content.items), tokens, wakers, owes
+//@   requires inboxOK(in) && !owes && !handoff
+//@   modifies in.procStatus, in.rb.content, in.rb.len, in.rb.content.*, elements(in.rb.content.items), tokens, wakers, owes, handoff
 //@   ghost at call Push#1 before: assert[C01.inbox.pushes-exactly-the-envelope] arg0 == in.rb && arg1 == msg
 //@   ghost at call Push#1: wakers = wakers + 1; owes = true
 //@   ghost at call schedule#1 before: assert[C03.send.push-before-schedule] loglen == entry(loglen) + 1 && owes
@@ -619,8 +624,8 @@ package actor
 
 //@ func (*Inbox).process()
 //@   props C02 C03
-//@   requires inboxOK(in) && tok && !owes
-//@   modifies heap except H$actor.Inbox$rb H$actor.Inbox$scheduler, stoppedByMe, tokens, wakers, log, loglen, tok, owes
+//@   requires inboxOK(in) && tok && !owes && !handoff
+//@   modifies heap except H$actor.Inbox$rb H$actor.Inbox$scheduler, stoppedByMe, tokens, wakers, log, loglen, tok, owes, handoff
 //@   ghost at call CompareAndSwapInt32#1 on success: tokens = tokens - 1; tok = false; wakers = wakers + 1; owes = true
 //@   ghost at call CompareAndSwapInt32#1 on failure: tokens = tokens - 1; tok = false
 //@   ghost at call Len#1: wakers = ite(result == 0, wakers - 1, wakers); owes = result != 0
@@ -642,10 +647,9 @@ package actor
 
 //@ func (*Inbox).Start(proc)
 //@   props C02 C03 C04
-//@   requires inboxOK(in) && !isnil(proc) && !owes && !starter && !published
+//@   requires inboxOK(in) && !isnil(proc) && !owes && !starter && !published && !handoff
 //@   requires[C02.start.only-unstarted-or-running] startPerm || (tok && !stoppedByMe)
-//@   modifies in.procStatus, in.proc, tokens, wakers, owes, starter, startPerm, published
-//@   ghost at entry: handoff = false
+//@   modifies in.procStatus, in.proc, tokens, wakers, owes, starter, startPerm, published, handoff
 //@   ghost at call CompareAndSwapInt32#1 on success: startPerm = false; starter = true
 //@   ghost at store proc#1: assert[C02.proc.written-only-by-the-starter] starter; published = true
 //@   ghost at call SwapInt32#1: starter = false; published = false; wakers = wakers + 1; owes = true
@@ -812,10 +816,11 @@ package actor
 // once, on a new goroutine (which thereby receives the worker token).
 //@ func (goscheduler).Schedule(fn)
 //@   props C02
-//@   modifies
+//@   modifies handoff
 //@   ghost at entry: spawned = 0
-//@   ghost at go fn: spawned = spawned + 1
+//@   ghost at go fn: spawned = spawned + 1; handoff = false
 //@   ghost at return#1: assert[C02.scheduler.starts-fn-exactly-once] spawned == 1
+//@   ensures !handoff
 
 // ---------------------------------------------------------------------------
 // Supervision tree (C08): linking a child to its parent; cleanup (above)
